@@ -182,8 +182,11 @@ impl Report {
     }
 
     pub fn violation(&mut self, clause: &str, signature: &str, detail: Value, scenario: Value) {
-        // keep the report bounded: at most 50 violations with full detail
-        if self.violations.len() < 50 {
+        // keep the report bounded: at most 3 violations with full detail per
+        // signature (so that rare signatures are not crowded out), 150 in total
+        let same = self.violations.iter().filter(|v| v.signature == signature).count();
+        self.count(&format!("violations[{signature}]"), 1);
+        if same < 3 && self.violations.len() < 150 {
             self.violations.push(Violation {
                 clause: clause.to_string(),
                 signature: signature.to_string(),
